@@ -6,6 +6,7 @@ import (
 	"go/token"
 	"go/types"
 	"reflect"
+	"sort"
 	"strings"
 
 	"golang.org/x/tools/go/ssa"
@@ -165,6 +166,27 @@ func C20(c *core.Ctx) {
 		if g := gates["resolve"]; g != nil {
 			_, path := core.FieldPath(g.call.Call.Args[1])
 			c.Check("R2", "resolves-node-id", g.call.Pos(), len(path) == 2 && path[0] == "Pfcp" && path[1] == "NodeID", "the name resolved is the configured PFCP node id")
+			// "resolvable" as the running UPF needs it: every own net.ResolveIPAddr of a node id uses one and the
+			// same address family (the establishment handler resolves the node id as "ip4" for the F-SEID; a start-up
+			// check in another family accepts node ids the server cannot use)
+			fam := map[string]bool{}
+			nRes := 0
+			for _, f2 := range p.OwnFuncs() {
+				for _, ci := range core.CallsMatching(f2, func(f *types.Func) bool { return core.IsPkgFunc(f, "net", "ResolveIPAddr") }) {
+					nRes++
+					if k, ok := ci.Common().Args[0].(*ssa.Const); ok && k.Value != nil && k.Value.Kind() == constant.String {
+						fam[constant.StringVal(k.Value)] = true
+					} else {
+						fam["<not constant>"] = true
+					}
+				}
+			}
+			var fams []string
+			for k := range fam {
+				fams = append(fams, k)
+			}
+			sort.Strings(fams)
+			c.Check("R2", "resolve-family-agrees", g.call.Pos(), len(fam) == 1 && nRes >= 2, fmt.Sprintf("all %d node-id resolutions use one address family %v", nRes, fams))
 		}
 		nOK := 0
 		core.Instrs(fn, func(in ssa.Instruction) {
